@@ -81,7 +81,7 @@ def check_day(agg, ordinal, deep):
     f = forms()
     d = V.ValueDate(dt)
     for name, kw, want in (
-            ("int", {"d": d}, n),
+            ("int", {"d": d}, ("int", n)),
             ("decimal", {"d": d}, float(n)),
             ("date", {"n": V.ValueInt(n)}, dt),
             ("date", {"n": V.ValueDecimal(float(n))}, dt),
@@ -110,6 +110,9 @@ def matches(r, want):
         return False
     v = r[1]
     V = core.ckl.values
+    if isinstance(want, tuple) and want[0] == "int":
+        return isinstance(v, V.ValueInt) and type(v.value) is int \
+            and v.value == want[1]
     if isinstance(want, datetime.datetime):
         return isinstance(v, V.ValueDate) and v.value == want
     if isinstance(want, bool):
@@ -117,6 +120,9 @@ def matches(r, want):
     if isinstance(want, list):
         return core.strict_eq(core.from_value(v), want)
     if isinstance(want, int):
+        # a difference of dates may be an int or an equal decimal
+        if isinstance(v, V.ValueDecimal):
+            return v.value == want
         return isinstance(v, V.ValueInt) and type(v.value) is int \
             and v.value == want
     if isinstance(want, float):
@@ -213,7 +219,7 @@ def explore_seconds(chunk):
                     # date(int(d)) its midnight, whatever the time of day
                     r = f.ev("int", d=d)
                     agg.count("steps")
-                    if not matches(r, ordinal - BASE):
+                    if not matches(r, ("int", ordinal - BASE)):
                         agg.violation(
                             {"law": "program:int(date with time)"},
                             {"t": "sec", "ordinal": ordinal, "sec": sec,
